@@ -18,7 +18,7 @@ def strip(s):
 def run(ctx):
     q = ctx.quick
     base = dict(DevByteIndexedStrings=False, MaxDepth=1, FocusKinds=KINDS | {"none"}, DAccs={"ro", "rw", "unw"},
-                DAttrs={"Value"}, DRanges=RANGES, DVTs=VTS, Calls={"Read", "Write"})
+                DAttrs={"Value"}, DRanges=RANGES, DVTs=VTS, Calls={"Read", "Write"}, ORanges={"", "1", "a"}, OVTs={"same", "null"})
     seqs = dict(base, MaxDepth=2, FocusKinds=KINDS, DAccs={"rw"})
 
     # 1. the design satisfies the monitor (sequences of 3 calls on the writable variables); byte indexed strings do not
@@ -41,9 +41,8 @@ def run(ctx):
         return n
 
     # 2. every single call: node kind x access level x attribute x index range x class of written value
-    n1 = gen("single_value", base)
-    n2 = gen("single_other_attributes", dict(base, DAttrs={"DisplayName", "AccessLevel", "Id0", "Id99"}, DRanges={"", "1", "a"},
-                                             DVTs={"same", "null"}))
+    #    (attributes other than Value: 3 index ranges, 2 classes of value)
+    n1 = gen("single", dict(base, DAttrs={"Value", "DisplayName", "AccessLevel", "Id0", "Id99"}))
     # 3. every sequence of two (thorough: on the writable variables every pair; quick: a sample) and
     #    every sequence of three calls over a reduced input space
     n3 = gen("pairs", dict(seqs, DRanges={"", "1", "1:2", "0:9", "4", "a"}) if q else seqs, limit=2500 if q else None)
@@ -101,7 +100,7 @@ def run(ctx):
                        "After every call the whole value is read back. distinct_nontrivial = distinct cases that write the Value of a writable variable")
     ctx.notes["steps_replayed"] = nsteps
     ctx.notes["outcomes"] = stats
-    ctx.notes["generated"] = {"single_value": n1, "single_other_attributes": n2, "pairs": n3, "triples": n4}
+    ctx.notes["generated"] = {"single": n1, "pairs": n3, "triples": n4}
     ctx.notes["drift"] = {"cases_with_L1_mismatch": len(drift), "first": drift[:3]}
     ctx.assumptions += [
         "an index range on a String selects characters (code points), on a ByteString bytes, on an array elements; a range that ends beyond the "
